@@ -36,7 +36,8 @@ def st_model(big):
         {
             "natom": C.st_natom(100001, big),
             "seed": st.integers(0, 2**32 - 1),
-            "title": C.st_title(1, 50),
+            # the title is a free-format string and may be empty (also for a frame inside a trajectory)
+            "title": st.one_of(C.st_title(1, 50), C.st_title(1, 50), C.st_title(1, 50), st.just("")),
             "time_style": st.sampled_from(["none", "comma", "comma", "step"]),
             "time_decimals": st.sampled_from([1, 3, 5]),
             "velocities": st.booleans(),
@@ -208,6 +209,8 @@ def labels(spec, model):
         out.append("names_fill_5_columns")
     if "," in model["title"]:
         out.append("comma_in_title")
+    if model["title"] == "":
+        out.append("empty_title")
     return out
 
 
